@@ -1,5 +1,9 @@
 package gen
 
+import "strings"
+
+func stringsIndex(s, w string) int { return strings.Index(s, w) }
+
 // features: hand-written statements, one or two per grammar feature, so that
 // no construct the parser knows is reachable only through the corpus of the
 // repository's own tests. Not all of them need to be accepted by every
@@ -99,3 +103,98 @@ func (g G) Feature() string { return features[g.n(len(features), "feature")] }
 
 // Features exposes the list (systematic strata enumerate it).
 func Features() []string { return features }
+
+// swaps: words of the same grammatical class. A statement and its variant have
+// the same shape up to one word, so what an instance remembers about a token
+// position of the first matters for the second.
+var swaps = [][2]string{
+	{"UPDATE", "SHARE"}, {"TEMPORARY", "TEMP"}, {"RESTART", "CONTINUE"}, {"CASCADE", "RESTRICT"}, {"ASC", "DESC"},
+	{"UNION", "EXCEPT"}, {"LEFT", "RIGHT"}, {"INNER", "FULL"}, {"FIRST", "LAST"}, {"ROWS", "RANGE"},
+	{"PRECEDING", "FOLLOWING"}, {"ALL", "DISTINCT"}, {"AND", "OR"}, {"MATCHED", "NOT MATCHED"}, {"NOTHING", "UPDATE SET id = 2"},
+	{"VIEW", "TABLE"}, {"UNIQUE", ""}, {"CONCURRENTLY", ""}, {"IF EXISTS", ""}, {"NATURAL", "CROSS"}, {"SELECT", "SELECT DISTINCT"},
+	{"INTERSECT", "UNION ALL"}, {"NULLS FIRST", "NULLS LAST"}, {"WITH", "WITH RECURSIVE"}, {"IN", "NOT IN"}, {"IS", "IS NOT"},
+	{"LIKE", "ILIKE"}, {"BETWEEN", "NOT BETWEEN"}, {"EXISTS", "NOT EXISTS"}, {"INSERT", "REPLACE"}, {"KEY", "NO KEY"},
+}
+
+// Variant returns sql with one word replaced by another of its class (either
+// direction), or with one identifier shortened or lengthened; ok=false if
+// nothing applies.
+func (g G) Variant(sql string) (string, bool) {
+	start := g.n(len(swaps), "vswap")
+	for i := range swaps {
+		sw := swaps[(start+i)%len(swaps)]
+		a, b := sw[0], sw[1]
+		if g.n(2, "vdir") == 1 && b != "" {
+			a, b = b, a
+		}
+		if a == "" {
+			continue
+		}
+		if k := indexWord(sql, a); k >= 0 && g.n(3, "vkind") != 2 {
+			return sql[:k] + b + sql[k+len(a):], true
+		}
+	}
+	// identifier: shorten or lengthen one lower-case word (offsets of what follows move)
+	words := lowerWords(sql)
+	if len(words) == 0 {
+		return sql, false
+	}
+	w := words[g.n(len(words), "vword")]
+	if g.n(2, "vlen") == 1 && w[1]-w[0] > 1 {
+		return sql[:w[0]+1] + sql[w[1]:], true
+	}
+	return sql[:w[1]] + "_longer_name" + sql[w[1]:], true
+}
+
+func isWordByte(c byte) bool {
+	return c == '_' || c >= '0' && c <= '9' || c >= 'a' && c <= 'z' || c >= 'A' && c <= 'Z'
+}
+
+func indexWord(s, w string) int {
+	for from := 0; from < len(s); {
+		k := stringsIndex(s[from:], w)
+		if k < 0 {
+			return -1
+		}
+		k += from
+		if (k == 0 || !isWordByte(s[k-1])) && (k+len(w) == len(s) || !isWordByte(s[k+len(w)])) {
+			return k
+		}
+		from = k + 1
+	}
+	return -1
+}
+
+func lowerWords(s string) [][2]int {
+	var out [][2]int
+	for i := 0; i < len(s); {
+		if s[i] >= 'a' && s[i] <= 'z' && (i == 0 || !isWordByte(s[i-1])) {
+			j := i
+			for j < len(s) && isWordByte(s[j]) {
+				j++
+			}
+			out = append(out, [2]int{i, j})
+			i = j
+			continue
+		}
+		i++
+	}
+	return out
+}
+
+// BigMultiline returns about kib KiB of short multi-line statements (more than
+// any chunk or window size a scanner may work in); bad != 0 puts a tokenizer
+// error (1) or a syntax error (2) on the last line.
+func BigMultiline(kib, bad int) string {
+	var sb strings.Builder
+	for i := 0; sb.Len() < kib*1024; i++ {
+		sb.WriteString("SELECT id, name -- row\nFROM t\nWHERE x = 1;\n")
+	}
+	switch bad {
+	case 1:
+		sb.WriteString("SELECT 'unterminated\n")
+	case 2:
+		sb.WriteString("SELECT a FROM t WHERE\n  AND\n")
+	}
+	return sb.String()
+}
